@@ -214,6 +214,10 @@ def coerce(v: V, ty: Ty) -> V:
                 return V(ty, smt.classobj(d[1])) if d[1] in smt.CLASSES else V(ty, z3.Const('class:' + d[1], Ref))
             if isinstance(d, tuple) and d[0] in ('lambda', 'closure', 'fn', 'method'):
                 return V(ty, z3.Const(fresh_name('callable'), Ref), py=d)
+        if ty.cls == 'any' and v.ty.kind in ('list', 'dict', 'set', 'tuple'):
+            return V(ty, z3.Const(fresh_name('opaque_' + v.ty.kind), Ref))   # lossy: the callee treats it as opaque
+        if v.ty.kind == 'py':
+            return V(ty, z3.Const(fresh_name('opaque_py'), Ref), py=v.py)
         raise Unsupported('cannot box %r into %r' % (v, ty))
     if v.ty.kind == 'obj':
         if ty.kind == 'int':
